@@ -19,6 +19,10 @@ CHECKS = {
    "Forged segments (all 64 flag combinations, seq/ack around window edges, shrinking windows, payloads) injected between legitimate events of seeded schedules; oracles: no Tcb call unwinds, no data beyond any advertised right edge, provably unacceptable segments have no immediate effect.",
    "Above-window segments that the stack retains in its reordering queue are treated as delayed arrivals (no assertion on their later effect).",
    "deterministic simulation: seeded fault injection of forged segments into simulated connections"),
+ "C11": ("E3 fragsim", "exploration", "6 C11",
+   "Seeded search over arrival schedules of real fragments (produced by the real fragmenter through MTU chains) into the real Reassembly: permutation, interleaving across datagrams, loss, duplication before and after completion, overlapping pieces, and reassembly timers on a virtual clock; reference interval-set model decides when a datagram must be returned and when a buffer must be gone; returned header and payload are compared byte for byte.",
+   "Reassembly is driven directly (the shipped Ipv4::demux builds a fresh Reassembly per packet); the timer task of Ipv4Session::receive is a virtual timer list; datagrams that share a buffer id carry the same payload.",
+   "deterministic simulation: seeded arrival/timer schedule search with interval-set reference model"),
 }
 
 NOT_APPLICABLE = {
@@ -65,6 +69,8 @@ def main():
         "engines": [
             {"name": "E1 tcbsim", "path": "/verif/harness/src/e1.rs", "serves_properties": ["C01", "C03", "C12", "C17"],
              "kind_free_text": "discrete-event simulator over two real Tcb objects: seeded scheduler picks among writes, reads, clock ticks, deliver-any/drop/duplicate, closes, old SYNs, forged segments"},
+            {"name": "E3 fragsim", "path": "/verif/harness/src/e3.rs", "serves_properties": ["C11"],
+             "kind_free_text": "discrete-event simulator over the real IPv4 Reassembly: seeded arrival schedules of real fragments with loss/duplication/overlap and a virtual reassembly-timer clock"},
         ],
         "checks": checks,
         "not_applicable": na,
